@@ -19,8 +19,8 @@ def grids(draw, max_len=None):
     q = draw(st.sampled_from(QS))
     k0 = draw(st.integers(-16 * q, 16 * q))
     hi = 64 * q if max_len is None else min(64 * q, max_len)
-    n = draw(st.one_of(st.integers(1, min(12, hi)),
-                       st.integers(1, min(40, hi)),
+    n = draw(st.one_of(st.integers(1, min(40, hi)),
+                       st.integers(1, min(12, hi)),
                        st.integers(1, hi)))
     return q, k0, n
 
@@ -29,13 +29,25 @@ def _uniq_sorted(xs):
     return sorted(set(xs))
 
 
+_SIZE_ORDER = [3, 5, 4, 8, 6, 2, 7, 12, 10, 16, 9, 20, 14, 24, 30, 11, 13, 18]
+
+
+def _size(draw, cap, lo=0):
+    """target size; the order of the choices matters because Hypothesis is
+    biased towards (and shrinks towards) the first elements"""
+    opts = [k for k in _SIZE_ORDER if lo <= k <= cap] or [min(max(lo, 0), cap)]
+    return draw(st.sampled_from(opts))
+
+
 @st.composite
-def train_on_grid(draw, n, pool, earlier, max_spikes):
+def train_on_grid(draw, n, pool, earlier, max_spikes, related=False):
     """sorted distinct ints in [0, n]"""
-    kinds = ["empty", "one", "one_start", "one_end", "both_edges"] + \
-        ["pool", "random"] * 4 + ["periodic", "burst"] * 2
+    kinds = ["random", "pool", "random", "pool", "periodic", "burst", "random", "pool"]
     if earlier:
-        kinds += ["copy"] * 2
+        kinds = ["jitter", "jitter", "jitter"] + kinds + ["copy"]
+    kinds += ["one", "empty", "one_end", "one_start", "both_edges"]
+    if related and earlier and any(earlier):
+        kinds = ["jitter"] * 6 + ["random", "pool", "copy"]
     kind = draw(st.sampled_from(kinds))
     cap = min(max_spikes, n + 1)
     if kind == "empty":
@@ -50,38 +62,53 @@ def train_on_grid(draw, n, pool, earlier, max_spikes):
         tr = [0, n]
     elif kind == "copy":
         tr = list(draw(st.sampled_from(earlier)))
+    elif kind == "jitter":
+        # an earlier train with every spike moved by a few grid units (some
+        # dropped): produces near-coincidences with leaders and followers
+        src = draw(st.sampled_from(earlier))
+        w = draw(st.sampled_from([1, 2, 3, 1]))
+        tr = []
+        for s_ in src:
+            d = draw(st.integers(-w, w + 1))
+            if d <= w and 0 <= s_ + d <= n:
+                tr.append(s_ + d)
+        tr = _uniq_sorted(tr)[:max(cap, 1)]
     elif kind == "pool":
-        tr = _uniq_sorted(draw(st.lists(st.sampled_from(pool), max_size=cap)))
+        k = _size(draw, min(cap, len(pool)))
+        tr = _uniq_sorted(draw(st.lists(st.sampled_from(pool), min_size=k, max_size=k,
+                                        unique=True)))
     elif kind == "random":
-        tr = _uniq_sorted(draw(st.lists(st.integers(0, n), max_size=cap)))
+        k = _size(draw, cap)
+        tr = _uniq_sorted(draw(st.lists(st.integers(0, n), min_size=k, max_size=k,
+                                        unique=True)))
     elif kind == "periodic":
-        p = draw(st.integers(1, max(1, n)))
-        a = draw(st.integers(0, n))
+        p = draw(st.integers(1, max(1, n // 3)))
+        a = draw(st.integers(0, min(n, p)))
         tr = list(range(a, n + 1, p))[:cap]
     else:  # burst
         a = draw(st.integers(0, n))
-        ln = draw(st.integers(1, cap))
+        ln = _size(draw, cap, 1)
         tr = list(range(a, min(n, a + ln - 1) + 1))
-    force = draw(st.sampled_from(["", "", "", "s", "e", "se"]))
+    force = draw(st.sampled_from(["", "", "s", "e", "", "se"]))
     if kind not in ("empty", "copy"):
         if "s" in force:
             tr = _uniq_sorted(tr + [0])
         if "e" in force:
             tr = _uniq_sorted(tr + [n])
-    tr = tr[:max(cap, 1)] if len(tr) > cap else tr
     return tr
 
 
 @st.composite
-def int_train_lists(draw, min_trains=2, max_trains=2, max_spikes=8, max_len=None):
+def int_train_lists(draw, min_trains=2, max_trains=2, max_spikes=8, max_len=None,
+                    related=False):
     q, k0, n = draw(grids(max_len))
-    psize = draw(st.integers(0, 6))
+    psize = draw(st.sampled_from([4, 6, 2, 8, 0]))
     pool = _uniq_sorted([0, n] + draw(st.lists(st.integers(0, n), min_size=psize,
                                                 max_size=psize)))
     nt = draw(st.integers(min_trains, max_trains))
     trains = []
     for _ in range(nt):
-        trains.append(draw(train_on_grid(n, pool, trains, max_spikes)))
+        trains.append(draw(train_on_grid(n, pool, trains, max_spikes, related)))
     return dict(q=q, k0=k0, n=n, trains=trains)
 
 
@@ -129,9 +156,11 @@ def mrts_for(draw, g, allow_none=True):
 
 
 @st.composite
-def maxtau_for(draw, g, allow_none=True, positive_only=False):
+def maxtau_for(draw, g, allow_none=True, positive_only=False, bite=False):
     q, n = g["q"], g["n"]
-    opts = ["grid", "diff", "big", "half"]
+    opts = ["grid", "diff", "big", "half", "coinc", "coinc"]
+    if bite:
+        opts = ["coinc"] * 5 + ["diff", "half"]
     if not positive_only:
         opts += ["zero"]
         if allow_none:
@@ -150,6 +179,25 @@ def maxtau_for(draw, g, allow_none=True, positive_only=False):
                     if s != t:
                         diffs.add(abs(s - t))
     diffs = sorted(diffs)[:40] or [1]
+    if kind == "coinc":
+        # distances of pairs that are coincident without bound (MRTS=0): a
+        # max_tau at or just below such a distance is where the bound bites
+        from fractions import Fraction as Fr
+        from . import oracle as O
+        ds = set()
+        for x in range(len(trs)):
+            for y in range(x + 1, len(trs)):
+                a = [Fr(v) for v in trs[x]]
+                b = [Fr(v) for v in trs[y]]
+                pr, _ = O.coincidences(a, b, Fr(0), Fr(n), Fr(0), None)
+                for i, j in pr:
+                    if a[i] != b[j]:
+                        ds.add(int(abs(a[i] - b[j])))
+        if not ds:
+            return draw(st.integers(1, 2 * n)) / (2 * q)
+        d = draw(st.sampled_from(sorted(ds)))
+        return draw(st.sampled_from([2 * d, 2 * d, max(1, 2 * d - 1), max(1, d),
+                                     2 * d + 1])) / (2 * q)
     if kind == "grid":
         return draw(st.integers(1, n)) / q
     if kind == "diff":
